@@ -79,8 +79,14 @@ def run(ctx):
         # of units^2 (the problem is the same one up to that factor)
         data = dict(data, X=data['X'] * 2.0 ** -18)
         ctx.hist('units', '2^-18 (covariance prior)')
+      big = prior == 'array' and i % 8 == 3
+      if big:
+        # features recorded in a large unit with a prior expressed in the same unit (e.g. an inverse covariance): its
+        # eigenvalues are of the order 1e-9
+        data = dict(data, X=data['X'] * 2.0 ** 15)
+        ctx.hist('units', '2^15 (array prior of the order 2^-30)')
       kw = fits.base_kwargs(name, data)
-      kw.update(prior=prior if prior != 'array' else fits.spd_array(rng, d), sparsity_param=float(rng.choice([0.01, 0.1, 0.5])),
+      kw.update(prior=prior if prior != 'array' else (fits.spd_array(rng, d) * (2.0 ** -30 if big else 1.0)), sparsity_param=float(rng.choice([0.01, 0.1, 0.5])),
                 random_state=int(rng.integers(0, 100)))
       kw = fits.sdml_fix_balance(name, kw, data)
     opt = {k: (v if not isinstance(v, np.ndarray) else 'ndarray') for k, v in kw.items()}
